@@ -327,10 +327,16 @@ func (e *c09Env) catalogue() []c09Op {
 		if e.scheme == "bfv" {
 			T = "bgv.Evaluator{ScaleInvariant}."
 		}
-		bin(T+"Add", 1, "bgvMatchScale", func(ev *c09Evals, a *rlwe.Ciphertext, b rlwe.Operand, o *rlwe.Ciphertext) error { return ev.bgv.Add(a, b, o) })
-		bin(T+"Sub", 1, "bgvMatchScale", func(ev *c09Evals, a *rlwe.Ciphertext, b rlwe.Operand, o *rlwe.Ciphertext) error { return ev.bgv.Sub(a, b, o) })
+		bin(T+"Add", 1, "bgvMatchScale", func(ev *c09Evals, a *rlwe.Ciphertext, b rlwe.Operand, o *rlwe.Ciphertext) error {
+			return ev.bgv.Add(a, b, o)
+		})
+		bin(T+"Sub", 1, "bgvMatchScale", func(ev *c09Evals, a *rlwe.Ciphertext, b rlwe.Operand, o *rlwe.Ciphertext) error {
+			return ev.bgv.Sub(a, b, o)
+		})
 		if e.scheme == "bgv" {
-			bin(T+"Mul", 2, "bgvTensor", func(ev *c09Evals, a *rlwe.Ciphertext, b rlwe.Operand, o *rlwe.Ciphertext) error { return ev.bgv.Mul(a, b, o) })
+			bin(T+"Mul", 2, "bgvTensor", func(ev *c09Evals, a *rlwe.Ciphertext, b rlwe.Operand, o *rlwe.Ciphertext) error {
+				return ev.bgv.Mul(a, b, o)
+			})
 			bin(T+"MulRelin", 1, "bgvTensorRelin", func(ev *c09Evals, a *rlwe.Ciphertext, b rlwe.Operand, o *rlwe.Ciphertext) error {
 				return ev.bgv.MulRelin(a, b, o)
 			})
@@ -341,30 +347,42 @@ func (e *c09Env) catalogue() []c09Op {
 		bin(T+"MulRelinScaleInvariant", 1, "bgvTensorSIRelin", func(ev *c09Evals, a *rlwe.Ciphertext, b rlwe.Operand, o *rlwe.Ciphertext) error {
 			return ev.bgv.MulRelinScaleInvariant(a, b, o)
 		})
-		bin(T+"MulThenAdd", 2, "", func(ev *c09Evals, a *rlwe.Ciphertext, b rlwe.Operand, o *rlwe.Ciphertext) error { return ev.bgv.MulThenAdd(a, b, o) })
+		bin(T+"MulThenAdd", 2, "", func(ev *c09Evals, a *rlwe.Ciphertext, b rlwe.Operand, o *rlwe.Ciphertext) error {
+			return ev.bgv.MulThenAdd(a, b, o)
+		})
 		bin(T+"MulRelinThenAdd", 1, "", func(ev *c09Evals, a *rlwe.Ciphertext, b rlwe.Operand, o *rlwe.Ciphertext) error {
 			return ev.bgv.MulRelinThenAdd(a, b, o)
 		})
 		un(T+"Rescale", "", func(ev *c09Evals, a, o *rlwe.Ciphertext) error { return ev.bgv.Rescale(a, o) })
 		un(T+"RotateColumns", "", func(ev *c09Evals, a, o *rlwe.Ciphertext) error { return ev.bgv.RotateColumns(a, 3, o) })
+		un(T+"RotateColumns(0)", "", func(ev *c09Evals, a, o *rlwe.Ciphertext) error { return ev.bgv.RotateColumns(a, 0, o) })
 		un(T+"RotateRows", "", func(ev *c09Evals, a, o *rlwe.Ciphertext) error { return ev.bgv.RotateRows(a, o) })
 		un(T+"InnerSum", "", func(ev *c09Evals, a, o *rlwe.Ciphertext) error { return ev.bgv.InnerSum(a, 1, 4, o) })
 		un(T+"Replicate", "", func(ev *c09Evals, a, o *rlwe.Ciphertext) error { return ev.bgv.Replicate(a, 1, 3, o) })
 	default:
 		T := "ckks.Evaluator."
-		bin(T+"Add", 1, "ckksEval", func(ev *c09Evals, a *rlwe.Ciphertext, b rlwe.Operand, o *rlwe.Ciphertext) error { return ev.ckks.Add(a, b, o) })
-		bin(T+"Sub", 1, "ckksEval", func(ev *c09Evals, a *rlwe.Ciphertext, b rlwe.Operand, o *rlwe.Ciphertext) error { return ev.ckks.Sub(a, b, o) })
-		bin(T+"Mul", 2, "ckksMul", func(ev *c09Evals, a *rlwe.Ciphertext, b rlwe.Operand, o *rlwe.Ciphertext) error { return ev.ckks.Mul(a, b, o) })
+		bin(T+"Add", 1, "ckksEval", func(ev *c09Evals, a *rlwe.Ciphertext, b rlwe.Operand, o *rlwe.Ciphertext) error {
+			return ev.ckks.Add(a, b, o)
+		})
+		bin(T+"Sub", 1, "ckksEval", func(ev *c09Evals, a *rlwe.Ciphertext, b rlwe.Operand, o *rlwe.Ciphertext) error {
+			return ev.ckks.Sub(a, b, o)
+		})
+		bin(T+"Mul", 2, "ckksMul", func(ev *c09Evals, a *rlwe.Ciphertext, b rlwe.Operand, o *rlwe.Ciphertext) error {
+			return ev.ckks.Mul(a, b, o)
+		})
 		bin(T+"MulRelin", 1, "ckksMulRelin", func(ev *c09Evals, a *rlwe.Ciphertext, b rlwe.Operand, o *rlwe.Ciphertext) error {
 			return ev.ckks.MulRelin(a, b, o)
 		})
-		bin(T+"MulThenAdd", 2, "", func(ev *c09Evals, a *rlwe.Ciphertext, b rlwe.Operand, o *rlwe.Ciphertext) error { return ev.ckks.MulThenAdd(a, b, o) })
+		bin(T+"MulThenAdd", 2, "", func(ev *c09Evals, a *rlwe.Ciphertext, b rlwe.Operand, o *rlwe.Ciphertext) error {
+			return ev.ckks.MulThenAdd(a, b, o)
+		})
 		bin(T+"MulRelinThenAdd", 1, "", func(ev *c09Evals, a *rlwe.Ciphertext, b rlwe.Operand, o *rlwe.Ciphertext) error {
 			return ev.ckks.MulRelinThenAdd(a, b, o)
 		})
 		un(T+"Rescale", "", func(ev *c09Evals, a, o *rlwe.Ciphertext) error { return ev.ckks.Rescale(a, o) })
 		un(T+"ScaleUp", "", func(ev *c09Evals, a, o *rlwe.Ciphertext) error { return ev.ckks.ScaleUp(a, rlwe.NewScale(8), o) })
 		un(T+"Rotate", "", func(ev *c09Evals, a, o *rlwe.Ciphertext) error { return ev.ckks.Rotate(a, 3, o) })
+		un(T+"Rotate(0)", "", func(ev *c09Evals, a, o *rlwe.Ciphertext) error { return ev.ckks.Rotate(a, 0, o) })
 		un(T+"Conjugate", "", func(ev *c09Evals, a, o *rlwe.Ciphertext) error { return ev.ckks.Conjugate(a, o) })
 		un(T+"InnerSum", "", func(ev *c09Evals, a, o *rlwe.Ciphertext) error { return ev.ckks.InnerSum(a, 1, 4, o) })
 		un(T+"Replicate", "", func(ev *c09Evals, a, o *rlwe.Ciphertext) error { return ev.ckks.Replicate(a, 1, 3, o) })
@@ -373,6 +391,7 @@ func (e *c09Env) catalogue() []c09Op {
 		})
 	}
 	R := "rlwe.Evaluator." // exercised through the scheme evaluator's embedded *rlwe.Evaluator
+	un(R+"Automorphism(galEl=1)", "", func(ev *c09Evals, a, o *rlwe.Ciphertext) error { return ev.rl.Automorphism(a, 1, o) })
 	un(R+"Automorphism", "rlweAut", func(ev *c09Evals, a, o *rlwe.Ciphertext) error { return ev.rl.Automorphism(a, g1, o) })
 	un(R+"AutomorphismHoisted", "", func(ev *c09Evals, a, o *rlwe.Ciphertext) error {
 		lvl := a.Level()
@@ -400,7 +419,9 @@ func (e *c09Env) catalogue() []c09Op {
 	})
 	// Relinearize: degree-2 input
 	ops = append(ops, c09Op{name: R + "Relinearize", kind: "deg2", outDeg: 1,
-		call: func(ev *c09Evals, a *rlwe.Ciphertext, _ interface{}, o *rlwe.Ciphertext) error { return ev.rl.Relinearize(a, o) }})
+		call: func(ev *c09Evals, a *rlwe.Ciphertext, _ interface{}, o *rlwe.Ciphertext) error {
+			return ev.rl.Relinearize(a, o)
+		}})
 	return ops
 }
 
@@ -510,7 +531,9 @@ func c09Err(f func() error) (err error) {
 	return f()
 }
 
-func isPanic(err error) bool { return err != nil && len(err.Error()) >= 6 && err.Error()[:6] == "panic:" }
+func isPanic(err error) bool {
+	return err != nil && len(err.Error()) >= 6 && err.Error()[:6] == "panic:"
+}
 
 func (e *c09Env) runOp(op c09Op, rel string, lvl0, lvl1 int) {
 	c := e.c
@@ -1095,42 +1118,45 @@ func genC09(c *Ctx) {
 	}
 	for _, scheme := range []string{"bgv", "bfv", "ckks"} {
 		for _, logN := range logNs {
-		  for _, nP := range []int{1, 2} {
-			if nP == 2 && logN != 5 {
-				continue
-			}
-			e := newC09Env(c, scheme, logN, nP)
-			ops := e.catalogue()
-			L := e.maxLevel()
-			type cfg struct {
-				rel    string
-				l0, l1 int
-			}
-			// scale ratios 1, 2, 3, 2^k in both directions
-			cfgs := []cfg{{"eq", L, L}, {"gt3", L, L}, {"lt3", L, L}, {"gt2", L, L}, {"lt2", L, L}, {"lt8", L, L}, {"eq", L, L - 1}, {"eq", L - 1, L}}
-			if c.Thorough() {
-				cfgs = append(cfgs, cfg{"gt8", L, L}, cfg{"gt1024", L, L}, cfg{"lt1024", L, L}, cfg{"gt3", L - 1, L}, cfg{"lt3", L, L - 1},
-					cfg{"eq", L - 1, L - 1}, cfg{"gt2", 1, 1}, cfg{"lt2", 1, 2})
-			}
-			if nP == 2 { // the second environment only has to reach the ≥ 2 auxiliary primes code paths
-				cfgs = []cfg{{"eq", L, L}, {"lt3", L, L - 1}}
-			}
-			for _, op := range ops {
-				for _, g := range cfgs {
-					if dir, _ := c09Rel(g.rel); !op.binary && dir == "lt" && op.kind != "pt" {
-						continue // op1's scale only exists for ct/pt second operands ("gt" = op0 at 3× the default scale)
-					}
-					e.runOp(op, g.rel, g.l0, g.l1)
+			for _, nP := range []int{1, 2} {
+				if nP == 2 && logN != 5 {
+					continue
 				}
+				e := newC09Env(c, scheme, logN, nP)
+				ops := e.catalogue()
+				L := e.maxLevel()
+				type cfg struct {
+					rel    string
+					l0, l1 int
+				}
+				// scale ratios 1, 2, 3, 2^k in both directions
+				cfgs := []cfg{{"eq", L, L}, {"gt3", L, L}, {"lt3", L, L}, {"gt2", L, L}, {"lt2", L, L}, {"lt8", L, L}, {"eq", L, L - 1}, {"eq", L - 1, L}}
+				if c.Thorough() {
+					cfgs = append(cfgs, cfg{"gt8", L, L}, cfg{"gt1024", L, L}, cfg{"lt1024", L, L}, cfg{"gt3", L - 1, L}, cfg{"lt3", L, L - 1},
+						cfg{"eq", L - 1, L - 1}, cfg{"gt2", 1, 1}, cfg{"lt2", 1, 2})
+				}
+				if nP == 2 { // the second environment only has to reach the ≥ 2 auxiliary primes code paths
+					cfgs = []cfg{{"eq", L, L}, {"lt3", L, L - 1}}
+				}
+				for _, op := range ops {
+					for _, g := range cfgs {
+						if dir, _ := c09Rel(g.rel); !op.binary && dir == "lt" && op.kind != "pt" {
+							continue // op1's scale only exists for ct/pt second operands ("gt" = op0 at 3× the default scale)
+						}
+						e.runOp(op, g.rel, g.l0, g.l1)
+					}
+				}
+				e.runSequences()
+				if nP == 1 {
+					e.runCodec()
+					e.runRingDiv()
+				}
+				e.runRGSW()
 			}
-			if nP == 1 {
-				e.runCodec()
-				e.runRingDiv()
-			}
-			e.runRGSW()
-		  }
 		}
 	}
 	c09RGSW(c)
 	c09Circuits(c)
+	c09LinTrans(c)
+	c09Protocols(c)
 }
